@@ -8,7 +8,7 @@ namespace Yorkie.Yson
 
 /-- part A for a root object (which may have a `type` member) -/
 theorem pp_marshal_rootObj (kvs : List (Str × Yson)) (hw : Yson.wfKvs kvs = true)
-    (hs : (atomsKvs kvs).all Atom.safe = true) : PP (marshal (.obj kvs)) (marshalP (.obj kvs)) :=
+    (hs : (atomsKvs kvs).all Atom.prepassOK = true) : PP (marshal (.obj kvs)) (marshalP (.obj kvs)) :=
   (pp_lbrace.append (pp_joinWith pp_comma (pp_marshalKvs kvs hw hs))).append pp_rbrace
 
 /-- part B for a root object -/
@@ -51,13 +51,13 @@ theorem bridge_root (v : Yson) (hroot : v.isObj = true ∨ ∃ xs, v = .arr xs) 
     rename_i kvs
     simp only [Yson.wf, Bool.and_eq_true] at hw
     simp only [YsonSafe, rootAtoms] at hs
-    rw [(pp_marshal_rootObj kvs hw.2 hs).eq]
+    rw [(pp_marshal_rootObj kvs hw.2 (all_prepassOK_of_safe hs)).eq]
     apply jsonParse_of_pValue
     · simp [marshalP, skipWs, isWs]
     · have := pValue_marshalP_rootObj kvs ((marshalP (.obj kvs)).length + 1) [] hw.1 hw.2 hs (by omega)
       simpa using this
   · have hs' : (atoms (.arr xs)).all Atom.safe = true := by simpa [YsonSafe, rootAtoms] using hs
-    rw [(pp_marshal (.arr xs) hw hs').eq]
+    rw [(pp_marshal (.arr xs) hw (all_prepassOK_of_safe hs')).eq]
     apply jsonParse_of_pValue
     · simp [marshalP, skipWs, isWs]
     · have := pValue_marshalP (.arr xs) ((marshalP (.arr xs)).length + 1) [] hw hs' numStop_nil (by omega)
